@@ -19,7 +19,7 @@ class Contract:
                  assumptions=(), loop_modifies=None, check_encode=False, replay=None, generator=False,
                  ghost_modifies=(), pure=False, notes="", bodyless=False, lemmas=None, cls=None,
                  timeout_ms=None, frame_check=True, inline=False, forall_ghosts=(), watch_extra=None,
-                 model_to_inputs=None, native=None, cuts=None, defaults=None, init_fields=None, volatile=()):
+                 model_to_inputs=None, native=None, cuts=None, defaults=None, init_fields=None, volatile=(), local_raises=()):
         self.id = id
         self.file = file
         self.qualname = qualname
@@ -64,6 +64,7 @@ class Contract:
         self.watch_extra = watch_extra
         self.cuts = cuts or {}
         self.defaults = defaults or {}
+        self.local_raises = list(local_raises)   # exception classes that the function catches itself (try/except around pure contexts)
         self.volatile = list(volatile)   # fields another task may change at any await: havocked at every loop head
         self.init_fields = init_fields or {}   # constructor contracts: fields created on self at a call site
         self.model_to_inputs = model_to_inputs   # model dict -> inputs of the native replay driver
@@ -85,7 +86,7 @@ class Contract:
         return self.stub_methods.get((cls, meth))
 
     def allows_raise(self, exc):
-        return any(is_subclass(exc, e) for e in self.raises)
+        return any(is_subclass(exc, e) for e in self.raises) or any(is_subclass(exc, e) for e in self.local_raises)
 
     def apply_def(self, ev, node):
         name = node.func.id
